@@ -416,7 +416,9 @@ fn place_json<'tcx>(tcx: TyCtxt<'tcx>, body: &Body<'tcx>, p: PlaceRef<'tcx>) -> 
             ProjectionElem::Deref => J::s("*"),
             ProjectionElem::Field(f, fty) => {
                 let mut name = J::Null;
+                let mut owner = J::Null;
                 if let ty::Adt(def, _) = pty.ty.kind() {
+                    owner = J::s(&tcx.def_path_str(def.did()));
                     let vi = pty.variant_index.unwrap_or(rustc_abi::FIRST_VARIANT);
                     if (vi.as_usize()) < def.variants().len() {
                         let v = def.variant(vi);
@@ -425,7 +427,7 @@ fn place_json<'tcx>(tcx: TyCtxt<'tcx>, body: &Body<'tcx>, p: PlaceRef<'tcx>) -> 
                         }
                     }
                 }
-                J::obj(vec![("f", J::n(f.as_u32() as i128)), ("n", name), ("ty", J::s(&ty_str(*fty)))])
+                J::obj(vec![("f", J::n(f.as_u32() as i128)), ("n", name), ("o", owner), ("ty", J::s(&ty_str(*fty)))])
             }
             ProjectionElem::Index(l) => J::obj(vec![("i", J::n(l.as_u32() as i128))]),
             ProjectionElem::ConstantIndex { offset, min_length, from_end } => J::obj(vec![
